@@ -15,17 +15,25 @@ CLAIM = dict(
           "cast to another kind / element type preserves shape and (converted) values; writing through mutable_ref / "
           "mutable_flatten / mutable_reshape / mutable_slice changes exactly the designated source cell. "
           "Tied to the C++ by running exhaustive and random operation histories on 17 ndarray_t instantiations x 2 layouts and the "
-          "three legacy classes, nm::cast over all kind tags and element types, and write-through over every view index of small shapes. "
+          "three legacy classes — every resize / converting constructor / assignment entry point with every argument form it accepts, "
+          "a distinct value written and read back at every index after each accepted resize, raw buffer against an independent address "
+          "computation — nm::cast over all kind tags and element types (also after histories), and write-through over every view index. "
           "Refuted (finding, pinned by the suite's ndarray(case10)): strides() of a column-major array reports row-major strides. "
           "Modelled after the fix batch: column-major clipped-shape strides unclamped, dynamic_ndarray() is a consistent 0-dim array, "
           "mutable_slice with a single slice compiles."),
     ref="5.20", technique="Coq proof (invariant over histories, refinement of an abstract array) + differential correspondence with the extracted model",
     extra="")
-RULE = ("histories over {resize(shape), write(k-th index, v), copy, assign-from-other(shape)}: exhaustive up to length 3 (quick) / 4 "
+RULE = ("histories over {resize(shape, argument form), write(k-th index, v), copy, assign-from-other(shape)}: exhaustive up to length 3 (quick) / 4 "
         "(thorough) over a per-kind alphabet holding two accepted requests, one refused request per applicable reason (wrong rank, "
         "wrong count / over capacity, over a clip bound), a write, copy and assign; seeded random histories of length 4..6 (quick 4..5) with "
-        "shapes from the box dim 1..4, extents 1..4 (+ 6, 7, 12, 13 one-dimensional); every state of every history is printed "
-        "(flag, shape, strides(), offset-functor strides, size(), len(data_), all elements via operator()). "
+        "shapes from the box dim 1..4, extents 1..4 (+ 6, 7, 12, 13 one-dimensional). Every resize request is passed in one of the argument "
+        "forms the overload set accepts (std::vector<size_t>, std::vector<int>, std::array<size_t|int,N>, utl::static_vector, "
+        "array::static_vector, utl::vector, variadic size_t / int; rotating over kinds in the exhaustive stream, random in the random "
+        "stream, each form x each rank/trailing-extent changing sequence in the forms stream); after every ACCEPTED resize a distinct "
+        "value is written at every index; every state of every history is printed (flag, shape, strides(), offset-functor strides, "
+        "size(), len(data_), all elements through operator(), the raw buffer) and compared with the abstract array whose buffer "
+        "positions are computed by Horner rank. Legacy classes: the same with every resize overload, every converting-constructor / "
+        "templated operator= source kind (7 kinds). nm::cast to 12 kind tags after such histories (histcast / lhistcast). "
         "non-trivial = the history holds a request of dim >= 2 and at least two operations; distinct = distinct case lines")
 THEOREM_STATUS = {"proved": ["C20_init_Inv", "C20_step_preserves_Inv", "C20_history_Inv", "C20_reachable_Inv",
                              "C20_distinct_indices_distinct_cells", "C20_refused_resize_unchanged", "C20_resize_accepts_iff_fits",
